@@ -5,7 +5,7 @@ From Coq Require Import List NArith.
 From RlibV Require Import C17.Model C17.Proofs.
 Import ListNotations.
 
-(** One generator per thread (the discipline of the current code): no data race is ever
+(** One generator per thread (the discipline of the code between commits c92b73c and b8a7caa): no data race is ever
     enabled, and every thread observes a sequentially explicable stream. *)
 Theorem c17_threadlocal_safe : forall (G : Type) (step : G -> G) (out : G -> N), safe step out ThreadLocal.
 Proof. exact (@threadlocal_safe). Qed.
@@ -32,6 +32,26 @@ Proof. exact (@atomic_rmw_log_is_stream). Qed.
 (** A mutex held around the load and the store of a shared generator is safe too. *)
 Theorem c17_locked_safe : forall (G : Type) (step : G -> G) (out : G -> N), safe step out Locked.
 Proof. exact (@locked_safe). Qed.
+
+(** ... linearizable: the time-ordered log of all draws is the generator's stream (no draw is lost, none is
+    handed out twice), every thread holds exactly its own sub-sequence of it, and the shared state is the
+    stream position.  This is the discipline of the current code (one process-wide Mutex<Rng>). *)
+Theorem c17_locked_no_lost_draw :
+  forall (G : Type) (step : G -> G) (out : G -> N) (seed : G) (progs sched : list nat),
+    let m := run step out Locked (init seed progs) sched in
+    map snd (log m) = stream step out (length (log m)) seed /\
+    (forall t th, nth_error (threads m) t = Some th -> seen th = project t (log m)) /\
+    glob m = Nat.iter (length (log m)) step seed.
+Proof. exact (@locked_log_is_stream). Qed.
+
+(** ... and free of deadlock: in every reachable state in which some thread still has a draw to start or
+    to finish, some thread is enabled. *)
+Theorem c17_locked_no_deadlock :
+  forall (G : Type) (step : G -> G) (out : G -> N) (seed : G) (progs sched : list nat),
+    let m := run step out Locked (init seed progs) sched in
+    (exists t th, nth_error (threads m) t = Some th /\ (todo th <> 0 \/ ph th <> Idle)) ->
+    exists t m', mstep step out Locked m t = Some m'.
+Proof. exact (@locked_no_deadlock). Qed.
 
 (** The unsynchronised static (the defect repaired in /repo, commit "per-thread priority
     generator"): a data race is enabled after a single scheduling step of two threads ... *)
